@@ -1441,6 +1441,10 @@ impl<'a, 'b, W: Write> Serializer for &'a mut YamlSerializer<'b, W> {
             self.at_line_start = false;
             self.with_in_flow(|s| value.serialize(s))?;
             self.out.write_str("}")?;
+            // Written in a block context (an element of a composite key): the line ends here.
+            if self.in_flow == 0 {
+                self.newline()?;
+            }
             return Ok(());
         }
         // If we are the value of a mapping key, YAML forbids "key: Variant: value" inline.
@@ -2271,6 +2275,9 @@ impl<'a, 'b, W: Write> SerializeTupleVariant for TupleVariantSer<'a, 'b, W> {
         if self.flow {
             self.ser.in_flow -= 1;
             self.ser.out.write_str("]}")?;
+            if self.ser.in_flow == 0 {
+                self.ser.newline()?;
+            }
             return Ok(());
         }
         self.ser.last_value_was_block = true;
@@ -2569,6 +2576,9 @@ impl<'a, 'b, W: Write> SerializeStructVariant for StructVariantSer<'a, 'b, W> {
         if self.flow {
             self.ser.in_flow -= 1;
             self.ser.out.write_str("}}")?;
+            if self.ser.in_flow == 0 {
+                self.ser.newline()?;
+            }
         }
         Ok(())
     }
